@@ -97,8 +97,20 @@ func (w *Worker) allowedSource(fn *ssa.Function) bool {
 // ensureInit runs the package initialiser of a repo package (leniently) the first time one of its
 // globals is touched on a path.
 func (w *Worker) ensureInit(e *Exec, pkg *ssa.Package) {
-	if pkg == nil || !w.isRepoPkg(pkg) || e.initRun[pkg] {
+	if pkg == nil || e.initRun[pkg] {
 		return
+	}
+	if !w.isRepoPkg(pkg) {
+		// third-party packages whose code is executed from source get their package-level variables
+		// initialised the same lenient way (e.g. go-ethereum/common/math's powers of two); huge or
+		// modelled packages are left alone
+		path := pkg.Pkg.Path()
+		for _, d := range sourceDenied {
+			if path == d || strings.HasPrefix(path, d+"/") {
+				e.initRun[pkg] = true
+				return
+			}
+		}
 	}
 	e.initRun[pkg] = true
 	initFn := pkg.Func("init")
